@@ -59,12 +59,17 @@ Definition show_out (o : res (option Z)) : string :=
   match o with Ok (Some v) => show_Z v | Ok None => "N" | _ => "PANIC" end.
 Definition out_code (o : res (option Z)) : Z :=
   match o with Ok (Some v) => (v mod 65536 + 2)%Z | Ok None => 1%Z | _ => 0%Z end.
-Definition out_hash (l : list (res (option Z))) : Z :=
-  fold_left (fun h o => ((h * 31 + out_code o) mod 4294967296)%Z) l 0%Z.
-(** short runs in full; long ones as #len/hash/first three/last three *)
+(** order-sensitive digest without division: (sum of codes, sum of position * code) *)
+Fixpoint out_sums (l : list (res (option Z))) (i s1 s2 : Z) : Z * Z :=
+  match l with
+  | [] => (s1, s2)
+  | o :: r => let c := out_code o in out_sums r (i + 1)%Z (s1 + c)%Z (s2 + i * c)%Z
+  end.
+(** short runs in full; long ones as #len/sum/weighted sum/first three/last three *)
 Definition show_outs (l : list (res (option Z))) : string :=
   if (zlen l <=? 16)%Z then show_items show_out l
-  else "#" ++ show_Z (zlen l) ++ "/" ++ show_Z (out_hash l) ++ "/" ++
+  else let '(s1, s2) := out_sums l 1%Z 0%Z 0%Z in
+       "#" ++ show_Z (zlen l) ++ "/" ++ show_Z s1 ++ "/" ++ show_Z s2 ++ "/" ++
        show_items show_out (firstn 3 l) ++ "/" ++ show_items show_out (skipn (length l - 3)%nat l).
 
 Definition run_hist (dbg : bool) (t : ty) (kf : kind * bool) (a b : Z) (h : list end_) : string :=
